@@ -1129,7 +1129,10 @@ func runC05(c *Ctx) {
 			if okBlk == nil {
 				// the success block is the false successor of (err != nil)
 				for _, b := range fn.Blocks {
-					if f := ir.EdgeFact(b, b.Succs[len(b.Succs)-1]); len(b.Succs) == 2 && f != nil {
+					if len(b.Succs) != 2 {
+						continue // exit blocks have no successor: nothing to index
+					}
+					if f := ir.EdgeFact(b, b.Succs[1]); f != nil {
 						if cm, ok := f.Cmp(); ok && cm.Op == token.EQL && ir.Resolve(cm.X) == errOf(cas) && ir.IsNilConst(cm.Y) {
 							okBlk = b.Succs[1]
 						}
